@@ -6,9 +6,9 @@ import random
 
 class RecSampler:
     """sampler whose content depends on the announced epoch only; exposes data_source"""
-    def __init__(self, n, with_set_epoch=True, salt=0):
+    def __init__(self, n, with_set_epoch=True, salt=0, ds_extra=0):
         self.n, self.epoch, self.salt = n, 0, salt
-        self.data_source = range(n)
+        self.data_source = range(n + ds_extra)      # a sampler may cover only part of its dataset
         self.announced = []
         if with_set_epoch:
             self.set_epoch = self._set_epoch
@@ -44,7 +44,7 @@ def oracle(case, start_epoch=0):
     offs, acc = [], N
     for c in cfgs:
         offs.append(acc)
-        acc += c["len"]
+        acc += c["len"] + c.get("extra", 0)
     out, announced = [], []
 
     def run_pass(ci):
@@ -87,7 +87,8 @@ def oracle(case, start_epoch=0):
 def build(case, **start):
     from kappadata.samplers.interleaved_sampler import InterleavedSampler, InterleavedSamplerConfig
     main = RecSampler(case["N"], case.get("has_set_epoch", True))
-    cfgs = [InterleavedSamplerConfig(sampler=RecSampler(c["len"], False, salt=ci), every_n_epochs=c.get("ene"),
+    cfgs = [InterleavedSamplerConfig(sampler=RecSampler(c["len"], False, salt=ci, ds_extra=c.get("extra", 0)),
+                                     every_n_epochs=c.get("ene"),
                                      every_n_updates=c.get("enu"), every_n_samples=c.get("ens"), batch_size=c.get("bs"))
             for ci, c in enumerate(case.get("configs", []))]
     s = InterleavedSampler(main, batch_size=case["B"], configs=cfgs, drop_last=case["drop_last"],
@@ -151,7 +152,7 @@ def check_c05(case):
     offs, acc = [], N
     for c in cfgs:
         offs.append(acc)
-        acc += c["len"]
+        acc += c["len"] + c.get("extra", 0)
 
     def pass_items(ci):
         c = cfgs[ci]
@@ -321,10 +322,12 @@ def neighbourhood(seed_case=None, limit=4000, rng=None):
     cfg_opts = [[],
                 [{"len": 2, "ens": 3}], [{"len": 3, "enu": 2, "bs": 2}], [{"len": 1, "ene": 1}],
                 [{"len": 2, "ene": 2, "enu": 3}], [{"len": 3, "ene": 1, "ens": 5, "bs": 2}],
-                [{"len": 2, "enu": 1}, {"len": 0, "ene": 1}, {"len": 3, "ens": 4, "bs": 3}]]
+                [{"len": 2, "enu": 1}, {"len": 0, "ene": 1}, {"len": 3, "ens": 4, "bs": 3}],
+                [{"len": 2, "ens": 5}, {"len": 2, "ens": 7}],
+                [{"len": 2, "enu": 1, "extra": 2}, {"len": 3, "ene": 1, "extra": 1, "bs": 2}, {"len": 1, "ens": 2}]]
     cases = []
-    for N in range(1, 8):
-        for B in range(1, N + 1):
+    for N in (1, 2, 3, 4, 5, 6, 7, 10):
+        for B in range(1, min(N, 5) + 1):
             for DL in (True, False):
                 dlbs = [None] + ([m * B for m in (2, 3) if m * B <= N] if DL else [])
                 for dlb in dlbs:
